@@ -76,6 +76,9 @@ def judge_case(c, r, F):
         F.add("%s:no-result" % ty, "the driver reported nothing for %s" % desc, c); return
     if r.get("skipped_after_crashes"):
         return
+    if "harness_error" in r and str(r["harness_error"]).startswith("EXPORT_NOT_IMPORTABLE"):
+        F.add("%s:library-export-refused" % ty, str(r["harness_error"]), {"case": c, "result": r})
+        return
     if "harness_error" in r:
         raise vlib.Infra("drv_wire could not set up a case of type %s: %s" % (ty, r["harness_error"]))
     if c["c"] == "case":
